@@ -49,7 +49,7 @@ def prepare(repo, tag):
     return work, applied
 
 
-def run(repo, tag, harnesses, jobs=4, harness_timeout=900, total_timeout=None, extra_args=None, ignore_checks=None):
+def run(repo, tag, harnesses, jobs=4, harness_timeout=900, total_timeout=None, extra_args=None, ignore_checks=None, mem_kb=None):
     """harnesses: list of dicts {id: 'mod::verif_kani::name', ...}.  Returns KaniOutcome."""
     out = KaniOutcome()
     t0 = time.time()
@@ -71,7 +71,7 @@ def run(repo, tag, harnesses, jobs=4, harness_timeout=900, total_timeout=None, e
         cmd += ['--harness', h['id']]
     cmd += (extra_args or [])
     out.cmd = ' '.join(cmd)
-    sh = 'ulimit -v %d; exec %s > %s 2>&1' % (MEM_KB, ' '.join("'%s'" % c for c in cmd), log_path)
+    sh = 'ulimit -v %d; exec %s > %s 2>&1' % (mem_kb or MEM_KB, ' '.join("'%s'" % c for c in cmd), log_path)
     tt = total_timeout or (harness_timeout * (1 + len(harnesses) // max(1, jobs)) + 900)
     try:
         p = subprocess.run(['bash', '-c', sh], cwd=work, env=_env(), timeout=tt)
